@@ -8,6 +8,7 @@ WT=/tmp/mutv$LANE
 i=0
 for d in /verif/seeded/C*-m*; do
   id=$(basename $d); prop=${id%%-*}
+  [ -f $d/.obsolete.json ] && continue   # neutralised by a later fix: kept for the record only
   if [ $((i % LANES)) -eq $LANE ]; then
     cd $WT && git reset -q --hard && git checkout -q --detach $(git -C /repo rev-parse HEAD) && git clean -qfd
     if git apply $d/patch.diff; then
